@@ -299,6 +299,9 @@ func run(cases []reg.Case, out *reg.Out) {
 	for ci, c := range cases {
 		for oi, t := range c.Ops {
 			o, ok := parseOp(t)
+			if ok && contains(ExtraKinds, o.kind) {
+				ok = false // experiments are only run by hand through `child`
+			}
 			jobs = append(jobs, job{ci, oi, o, ok})
 		}
 	}
